@@ -37,10 +37,17 @@ Init ==
   /\ ex = [x \in 1..NX |-> NoEx]
   /\ cache = [f \in 1..NF |-> None]
   /\ maxn = 0 /\ viol = {}
-  /\ cnt = [ops |-> 0, reuse |-> 0, failed |-> 0, setupskip |-> 0, restart |-> 0, copy |-> 0, defaults |-> 0]
+  /\ cnt = [ops |-> 0, reuse |-> 0, failed |-> 0, setupskip |-> 0, restart |-> 0, copy |-> 0, defaults |-> 0, twin |-> 0, altrestart |-> 0]
 
 Clauses(S) == {p[2] : p \in {q \in S : q[1]}}
-Mark(names) == viol \cup {[i |-> pos, c |-> nm] : nm \in names}
+\* C17, histories: an event of an AsyncDAG history may carry what the SAME history did on the DAG built from the same
+\* function (e.tw = <<out, executed, stored keys>>, <<-9, 0, 0>> when there is no such twin).  Both flavours succeed or fail
+\* together, and where both succeed they executed the same nodes and hold the same results afterwards.
+TwinClause ==
+  LET e == Traces[tid].ev[pos]
+  IN IF e.tw[1] # -9 /\ (((e.out = 0) # (e.tw[1] = 0)) \/ (e.out = 0 /\ e.tw[1] = 0 /\ (e.e # e.tw[2] \/ e.keys # e.tw[3])))
+     THEN {"C17.flavours-differ"} ELSE {}
+Mark(names) == viol \cup {[i |-> pos, c |-> nm] : nm \in names \cup TwinClause}
 
 \* observation of an execution of selection S with arguments args on instance i
 \* returns the set of violated clauses; `fullrun` = the execution is expected to run S from scratch
@@ -91,6 +98,8 @@ Step ==
   /\ pos <= Len(T.ev)
   /\ pos' = pos + 1 /\ tid' = tid
   /\ cnt' = [cnt EXCEPT !.ops = @ + 1,
+               !.twin = @ + (IF e.tw[1] # -9 THEN 1 ELSE 0),
+               !.altrestart = @ + (IF e.op = "restart" /\ e.alt = 1 /\ e.out = 0 /\ \E p \in 1..D.np : e.used[p] # -2 THEN 1 ELSE 0),
                !.failed = @ + (IF e.out = 1 THEN 1 ELSE 0),
                !.reuse = @ + (IF e.op = "exrun" /\ ex[e.x].st \in {"ok", "failed"} THEN 1 ELSE 0),
                !.setupskip = @ + (IF e.op \in {"call", "exrun"} /\ DoneSet(D, v) # {} THEN 1 ELSE 0),
@@ -226,6 +235,9 @@ Step ==
                   <<E \cap have # {}, "C18.recomputed">>,
                   <<ok /\ E # ((S \ have) \ DoneSet(D, v)) \ D.off, "C18.exec">>,
                   <<ok /\ ~e.fresh, "C18.value">>,
+                  \* a restart called with other arguments than the run that wrote the file (e.alt = 1, all given): a node it
+                  \* executes that reads a DAG input received the argument of THIS call
+                  <<ok /\ e.alt = 1 /\ \E p \in 1..D.np : e.used[p] # -2 /\ e.used[p] # e.args[p], "C02.restart-argument">>,
                   <<Bits(n, e.dup) # {}, "C03.twice">>})
             IN /\ viol' = Mark(bad \cup Clauses({<<e.xkeys # 0, "C15.results-polluted">>}))
                /\ val' = [val EXCEPT ![i] = vnew]
